@@ -165,6 +165,13 @@ def gen_unsafe():
     hex_table = [ord(c) for c in m.group(2)]
     if int(m.group(1)) != len(hex_table):
         raise ExtractError('HEX_TABLE length annotation differs from literal')
+    dcs = src('src/parsers/ansi/dcs.rs')
+    m = re.search(r'const MAX_MACRO_LEN:\s*usize\s*=\s*(\d+);', dcs)
+    if not m:
+        raise ExtractError('MAX_MACRO_LEN not found in dcs.rs')
+    max_macro_len = int(m.group(1))
+    if not re.search(r'let room = MAX_MACRO_LEN\.saturating_sub\(dst\.len\(\)\) / rec\.len\(\);\s*for _ in 0\.\.\(n\.max\(0\) as usize\)\.min\(room\) \{\s*dst\.push_str\(rec\);', dcs):
+        raise ExtractError('push_repeated no longer appends whole records within MAX_MACRO_LEN (Model/Unicode.repeatAppend)')
     xb = src('src/formats/xbinary.rs')
     m = re.search(r'#\[repr\(u8\)\][^{]*enum Compression \{(.*?)\}', xb, re.S)
     if not m:
@@ -192,6 +199,7 @@ def gen_unsafe():
     out.append('def otherUnsafe : List (String × String × String) := [' +
                ',\n  '.join(f'({json.dumps(a)}, {json.dumps(b)}, {json.dumps(c)})' for a, b, c in others) + ']\n')
     out.append(lean_list('hexTable', hex_table))
+    out.append(f'def maxMacroLen : Nat := {max_macro_len}\n')
     out.append(lean_list('xbinCompressionDiscriminants', discr))
     out.append(lean_list('xbinCompressionMasks', masks))
     out.append(f'def sourceFilesScanned : Nat := {n_files}\n')
